@@ -492,6 +492,9 @@ func (f *Frame) enterLoop(li *LoopInfo, b *ssa.BasicBlock, reach string, st *Sta
 	}
 	// check invariants on entry
 	for _, inv := range spec.Invariants {
+		if !e.inView(inv) {
+			continue
+		}
 		t := f.specBool(inv.Expr, &specEnv{f: f, st: st, old: f.entry, block: b, phiOverride: entryPhi, atLoopHead: true})
 		f.e.oblige("loop-entry", fmt.Sprintf("%s:loop%d:entry:%s", fname, li.Ordinal, clauseName(inv)), f.clauseProps(inv), reach, t, f.pos(loopPos(li)), inv.Text)
 	}
@@ -546,6 +549,9 @@ func (f *Frame) autoFrame(h, sortS, before, after, allocBefore string) {
 
 func (f *Frame) assumeLoopInvariants(lc *loopCtx, reach string, st *State) {
 	for _, inv := range lc.spec.Invariants {
+		if !f.e.inView(inv) {
+			continue
+		}
 		t := f.specBool(inv.Expr, &specEnv{f: f, st: st, old: f.entry, block: lc.li.Header, atLoopHead: true})
 		f.e.assume(reach, t)
 	}
@@ -578,10 +584,13 @@ func (f *Frame) checkBackEdge(from, header *ssa.BasicBlock, taken string, st *St
 		over[phi] = f.val(phi.Edges[idx])
 	}
 	for _, inv := range lc.spec.Invariants {
+		if !f.e.inView(inv) {
+			continue
+		}
 		t := f.specBool(inv.Expr, &specEnv{f: f, st: st, old: f.entry, block: header, phiOverride: over, atLoopHead: true})
 		f.e.oblige("loop-preserve", fmt.Sprintf("%s:loop%d:preserve:%s", fname, lc.li.Ordinal, clauseName(inv)), f.clauseProps(inv), taken, t, f.pos(loopPos(lc.li)), inv.Text)
 	}
-	if d := lc.spec.Decreases; d != nil {
+	if d := lc.spec.Decreases; d != nil && f.e.primary() {
 		v := f.specTerm(d.Expr, &specEnv{f: f, st: st, old: f.entry, block: header, phiOverride: over, atLoopHead: true})
 		cond := fmt.Sprintf("(and (>= %s 0) (< %s %s))", lc.measure, v.T, lc.measure)
 		f.e.oblige("loop-decreases", fmt.Sprintf("%s:loop%d:decreases", fname, lc.li.Ordinal), f.clauseProps(d), taken, cond, f.pos(loopPos(lc.li)), d.Text)
@@ -602,7 +611,7 @@ func (f *Frame) clauseProps(c *Clause) []string {
 
 func (f *Frame) rtCheck(kind string, in ssa.Instruction, guard, cond, desc string) {
 	e := f.e
-	if f.noPanic {
+	if f.noPanic && e.primary() {
 		name := fmt.Sprintf("%s:%s:%s", strings.Join(f.stack, ">"), kind, desc)
 		e.oblige(kind, name, f.npProps, guard, cond, f.pos(in.Pos()), "")
 	} else {
@@ -612,7 +621,7 @@ func (f *Frame) rtCheck(kind string, in ssa.Instruction, guard, cond, desc strin
 
 func (f *Frame) explicitPanic(in ssa.Instruction, guard, desc string) {
 	e := f.e
-	if f.noPanic {
+	if f.noPanic && e.primary() {
 		name := fmt.Sprintf("%s:panic:%s", strings.Join(f.stack, ">"), desc)
 		e.oblige("panic", name, f.npProps, guard, "false", f.pos(in.Pos()), "")
 	} else {
